@@ -1185,6 +1185,9 @@ class _CycleCell(_Cell):
         self._prev_value = None
         self.wip = False
         super().__init__(*args, **kwargs)
+        # a cell which was just built has not been calculated in this iteration
+        iterative_eval_tracker.ns.computed.discard(self)
+        iterative_eval_tracker.ns.todo.discard(self)
 
     @property
     def value(self):
